@@ -134,7 +134,7 @@ class C09Expanding(Scenario):
 SPEC = PropSpec(
     prop="C09",
     scenarios=[(1, C09Expanding)],
-    runs={"quick": 8000, "thorough": 300000},
+    runs={"quick": 30000, "thorough": 700000},
     rule=("one run = an ExpandingBloomFilter with est_elements 1..8, a drawn rate and hash strategy, <=60 steps of add "
           "(new / duplicate / forced, classified by a check just before), push, and export+load over bytes / path / file "
           "object; per-filter insertion counts are read from the exported stream by layout after every step.  "
